@@ -71,8 +71,8 @@ def opted_in(job):
     return scope != CacheScope.NONE and (allowed is None or CacheResult.CSE in allowed) and job.get_options().get("prov", True)
 
 
-def one_run(ctx, p, decisions=None, rng=None, items=None, tag="random"):
-    st, payload, ctl, sched = sc.run_real(p, decisions=decisions, rng=rng)
+def one_run(ctx, p, decisions=None, rng=None, items=None, tag="random", p_complete=0.3):
+    st, payload, ctl, sched = sc.run_real(p, decisions=decisions, rng=rng, p_complete=p_complete)
     keys = [(sp["key"], sp["ctx"]) for sp in p.specs]
     nontrivial = len(set(keys)) < len(keys)
     key = (json.dumps(p.to_json(), sort_keys=True), tuple(ctl.choice_log)) if nontrivial else None
@@ -144,9 +144,11 @@ def run(ctx):
             pass
         base.flush(ctx, items)
     for i in range(ctx.n(60, 700)):
-        p = sc.gen_program(rng, p_dup=0.8, p_limits=0.35, allow_ctx=False)
-        for k in range(2):
-            one_run(ctx, p, rng=random.Random(rng.random()), items=items)
+        wide = i % 3 == 2
+        p = sc.gen_wide(rng, p_dup=0.6) if wide else sc.gen_program(rng, p_dup=0.8, p_limits=0.35, allow_ctx=False)
+        for k in range(3 if wide else 2):
+            one_run(ctx, p, rng=random.Random(rng.random()), items=items, tag="wide-duplicates" if wide else "random",
+                    p_complete=0.5 if wide else 0.3)
         if len(items) >= 50:
             base.flush(ctx, items)
             _opt_cache.clear()
